@@ -104,12 +104,18 @@ func c06(x *mon.Ctx) {
 	x.Level = "fault_enumeration"
 	x.Rule = "14 artefact roles, each with its own window (the root is issued five times with one key and name: in the quote, in each of the three issuer-chain headers, in the pool; the PCK-CRL header carries its own copy of the intermediate; TCB-Info and QE-Identity have different signers): (1) boundary grid — for each role's expiry {1 s before, at, 1 s after} at each governing time entry with everything else 10 years away, and for the five path-validated certificates the same around notBefore; (2) 'judged at its own time' — for every role and every time entry: only that entry past the role's expiry (must reject iff the entry governs the role) and every OTHER entry past it while the governing ones are before (must accept); (3) monotonicity — all five times at expiry + {1 s, 1 h, 1 d, 30 d, 365 d} must reject; (4) random assignments of windows and five pairwise distinct times judged by the reference (accept => every listed condition holds at its own time). Run at the lowest option level where the role matters and above. distinct = (class, role, time entry, offset, level)."
 	x.Assume = []string{"zero time.Time entries are excluded (the statement speaks of caller-supplied times)", "crypto/x509 enforces validity periods on the paths it validates"}
+	enableShadow(x)
 	r := x.Rand("keys")
 	k := &c06Keys{root: world.NewKey(), inter: world.NewKey(), leaf: world.NewKey(), tcb: world.NewKey(), qe: world.NewKey(), p: world.RandPlatform(r)}
 	var cases []*world.Case
+	var farTwin *world.Case
 	add := func(w *world.World, lvl int, class, param, expect string) {
 		c := w.Case(lvl, class, param+"/"+[]string{"base", "coll", "crl"}[lvl])
 		c.Expect = expect
+		if farTwin == nil {
+			farTwin = c // the first case added is the all-far twin (same keys and names as every other case)
+		}
+		c.TwinRef = farTwin
 		c.Form = mon.Forms[len(cases)%4]
 		cases = append(cases, c)
 	}
